@@ -141,7 +141,7 @@ pub fn arg_tag(stmt: &AggregateStatement, rows: &[RowFacts], i: usize) -> String
 impl Monitor for C04 {
     fn id(&self) -> &'static str { "C04" }
     fn rule(&self) -> &'static str {
-        "case = standard typed table + 5-40 lines (1-6 groups, per-column NULL rates that make all-NULL and single-row groups common, TEXT/TIMESTAMP arguments) + generated aggregate statement (1-4 aggregates in any order mixed with key expressions, with/without GROUP BY, WHERE, HAVING with hidden aggregates, agg op const, p in {0, .25, .5, .9, 1}). The engine's per-row key and argument values (SELECT keys, args WHERE filter) are folded by the reference; the batch result table must match group by group (order, one row per group, every cell in its accept set, HAVING). A failing statement is re-run with each aggregate alone to name the aggregate at fault. Non-trivial = >= 2 groups or an all-NULL group, and >= 1 aggregate besides keys; distinct by case hash"
+        "case = standard typed table + 5-40 lines (1-6 groups; one case in 200: 400-1600 lines over 1-300 groups, per-column NULL rates that make all-NULL and single-row groups common, TEXT/TIMESTAMP arguments) + generated aggregate statement (1-4 aggregates in any order mixed with key expressions, with/without GROUP BY, WHERE, HAVING with hidden aggregates, agg op const, p in {0, .25, .5, .9, 1}). The engine's per-row key and argument values (SELECT keys, args WHERE filter) are folded by the reference; the batch result table must match group by group (order, one row per group, every cell in its accept set, HAVING). A failing statement is re-run with each aggregate alone to name the aggregate at fault. Non-trivial = >= 2 groups or an all-NULL group, and >= 1 aggregate besides keys; distinct by case hash"
     }
     fn assumptions(&self) -> Vec<String> { vec!["per-row expression values are taken from the engine (C03 checks them)".into(), "accept sets of Appendix A.5 (AVG over INT as REAL mean or truncated INT, population or sample variance, percentile between lower and upper nearest rank)".into()] }
     fn sizes(&self, tier: Tier) -> Sizes { match tier { Tier::Quick => Sizes { cases: 12_000, min_nontrivial: 4_000 }, Tier::Thorough => Sizes { cases: 600_000, min_nontrivial: 200_000 } } }
@@ -150,8 +150,10 @@ impl Monitor for C04 {
         let js = rng.chance(2, 3);
         let allc = rng.below(2) == 0;
         let t = std_table(rng, "t", js, allc);
-        let dc = DataCfg::random(rng, t.schema.cols.len(), false);
-        let n = 5 + rng.below(36);
+        let mut dc = DataCfg::random(rng, t.schema.cols.len(), false);
+        let mut n = 5 + rng.below(36);
+        // size thresholds: hundreds of groups, or hundreds of values in one group
+        if rng.chance(1, 200) { n = 400 + rng.below(1200); dc.keys = *rng.pick(&[1usize, 2, 40, 300]); }
         let lines = std_lines(rng, &t, n, &dc);
         let mut sel = gen_aggregate(rng, &t.schema, &AggCfg::default());
         // DISTINCT over the result table: rows repeat when the keys are not shown
